@@ -193,7 +193,7 @@ async fn run_storm(a: &Args, m: &mut mon::Mon) {
                 w.refresh_oracles();
                 scen::close_bank_cycle(&mut w, m, &mut r, s.g, s.liquidator).await;
             }
-            if k % 500 == 350 && matches!(a.prop.as_str(), "C16" | "C01") {
+            if k % 500 == 350 && matches!(a.prop.as_str(), "C16" | "C01" | "C06") {
                 // an account goes bankrupt (disabled), its owner moves it to a new address and tries to
                 // act with it there: the disabled status follows the positions
                 w.refresh_oracles();
